@@ -321,10 +321,10 @@ def lean_stage(check, pid, extra_targets=()):
         proc = subprocess.run(["lake", "build"] + targets, cwd=LEAN_DIR, capture_output=True, text=True)
         info["build_s"] = round(time.time() - t0, 1)
         out = proc.stdout + proc.stderr
-    for m in re.finditer(r"'([^']+)' depends on axioms: \[([^\]]*)\]", out):
+    for m in re.finditer(r"'(\S+)' depends on axioms: \[([^\]]*)\]", out):
         full, axs = m.group(1), [a.strip() for a in m.group(2).split(",") if a.strip()]
         info["theorems"][full] = axs
-    for m in re.finditer(r"'([^']+)' does not depend on any axioms", out):
+    for m in re.finditer(r"'(\S+)' does not depend on any axioms", out):
         info["theorems"][m.group(1)] = []
     errors = [ln for ln in out.splitlines() if ln.startswith("error:")]
     if proc.returncode != 0:
